@@ -415,7 +415,7 @@ def rule_protoscope(chk, prog, tier):
                 return w.mkexpr('EXPRCONST', w.t('int'), u__constant__u=v)
             it.models.update({'next': nxt, 'consume': consume, 'expect': expect, 'peek': peek, 'mkscope': mkscope, 'delscope': delscope, 'parameter': parameter,
                               'assignexpr': assignexpr, 'eval': lambda i2, a, e: a[0], 'attr': lambda i2, a, e: 0, 'gnuattr': lambda i2, a, e: 0, 'typequal': lambda i2, a, e: 0,
-                              'scopeputdecl': lambda i2, a, e: None, 'istypename': lambda i2, a, e: 0,
+                              'scopeputdecl': lambda i2, a, e: None, 'scopegetdecl': lambda i2, a, e: None, 'istypename': lambda i2, a, e: 0,
                               'xmalloc': lambda i2, a, e: Ptr(Obj('heap@%s' % e.get('line'), 'heap'), ()),
                               'error': lambda i2, a, e: (_ for _ in ()).throw(Terminal('error', cmodel.fmt_of(i2, a, 1))),
                               'fatal': lambda i2, a, e: (_ for _ in ()).throw(Terminal('fatal', cmodel.fmt_of(i2, a, 0)))})
